@@ -55,6 +55,14 @@ var reservedNames = map[string]any{
 	"float":   nil,
 	"complex": nil,
 	"str":     nil,
+	// modules the generated code imports under these names
+	"datetime": nil,
+	"enum":     nil,
+	"types":    nil,
+	"typing":   nil,
+	"np":       nil,
+	"npt":      nil,
+	"yardl":    nil,
 }
 
 var TypeSyntaxWriter dsl.TypeSyntaxWriter[string] = func(self dsl.TypeSyntaxWriter[string], t dsl.Node, contextNamespace string) string {
